@@ -6,7 +6,7 @@ from fractions import Fraction as Fr
 import casadi as ca
 
 from .. import families as fam
-from ..dsl import (Cfg, Spec, Sym, Con, E, X, U, Pg, t, T, t0, nl1, C, at_t0, at_tf)
+from ..dsl import (Cfg, Spec, Sym, Con, E, X, U, Pg, t, T, t0, nl1, C, at_t0, at_tf, inf_der, der)
 from ..extract import quiet
 from ..instance import Inst
 from ..match import Checker, close
@@ -23,8 +23,8 @@ META = {
             "bound between grid points, replayed numerically on the real NLP functions and the real refined sample.  Rejection: a non-polynomial body must raise.  distinct by (shape,label)" % REFINE,
     'functions': ['rockit/sampling_method.py:add_inf_constraints', 'rockit/casadi_helpers.py:reinterpret_expr', 'rockit/splines/spline.py:BSplineBasis/BSpline algebra and comparisons',
                   'rockit/multiple_shooting.py, single_shooting.py, direct_collocation.py: call sites', 'rockit/stage.py:_grid_intg_fine (the polynomial being certified)'],
-    'bounds': 'bodies: x_i <= ub, a*x_i + b*x_j >= lb (degree 1); models x\'=u and double integrator (rk exact, collocation degree 4 exact); MS, SS (rk), DC degree 4 radau; N<=3, M<=2 (DC: M=1, numeric T); uniform, local geometric, user and FreeGrid; numeric and free T',
-    'outside': 'degree-2 bodies and inf_der/inf_inert (the direct query is quadratic in the decision vector and nlsat does not finish; the Bernstein hull argument for them is not re-proved here); tightness as M grows; '
+    'bounds': 'bodies: x_i <= ub, a*x_i + b*x_j >= lb, lb <= inf_der(x_i) <= ub (degree 1); models x\'=u and double integrator (rk exact, collocation degree 4 exact); MS, SS (rk), DC degree 4 radau; N<=3, M<=2 (DC: M=1, numeric T); uniform, local geometric, user and FreeGrid; numeric and free T',
+    'outside': 'inf_der under DirectCollocation (rounded power-basis tables: exact only up to 1e-15); degree-2 bodies and inf_inert (the direct query is quadratic in the decision vector and nlsat does not finish; the Bernstein hull argument for them is not re-proved here); tightness as M grows; '
                'violations confined to times strictly between refined points',
     'assumptions': ['the refined sample is the scheme polynomial (C08)', 'reals for floats'],
     'explanation': 'bounded symbolic checking of a universally quantified implication over the real NLP rows (QF_LRA/QF_NRA), counterexamples replayed on the real code',
@@ -38,6 +38,10 @@ def models():
     out.append(s)
     s = Spec(nx=2, nu=1, ode=[X(1), U(0)], note='double integrator')
     s.cons = [Con('<=', X(0), 1, grid='inf'), Con('>=', X(0) * 2 + X(1), -3, grid='inf'), Con('==', at_t0(X(0)), 0)]
+    out.append(s)
+    # rate bound through inf_der: the derivative of the state polynomial is certified
+    s = Spec(nx=2, nu=1, ode=[X(1), U(0)], note='double integrator, inf_der rate bound')
+    s.cons = [Con('<=<=', Fr(-3, 10), Fr(3, 10), mid=inf_der(X(0)), grid='inf'), Con('==', at_t0(X(0)), 0)]
     out.append(s)
     return out
 
@@ -53,6 +57,8 @@ def instances(tier, seed):
     n = 0
     for method, intg in (('MS', 'rk'), ('SS', 'rk'), ('DC', None)):
         for mi, s in enumerate(models()):
+            if method == 'DC' and 'inf_der' in s.note:
+                continue    # derivative of the rounded collocation power basis vs the state polynomial agree only up to 1e-15: not an exact identity
             for g in grids:
                 Ns = [2, 3] if tier == 'quick' else [1, 2, 3]
                 for N in Ns[: (1 if tier == 'quick' else 3)] if g[0] != 'function' else ([2] if method == 'DC' else [3]):
@@ -89,9 +95,21 @@ def run(item):
 
     def extra(b):
         outs = []
+        def plain(e):
+            # the quantity an inf_der term certifies is the time derivative of the step polynomial: for these exact
+            # polynomial models that is der(e) sampled on the refined grid
+            if isinstance(e, E) and e.op == 'inf_der':
+                return E('der', e.a[0])
+            if isinstance(e, E) and e.op not in ('c', 'x', 'u', 'p', 'v', 't', 'T', 't0'):
+                return E(e.op, *[plain(a) if isinstance(a, E) else a for a in e.a])
+            return e
         for c in infc:
-            body = b.mx(c.lhs) - b.mx(c.rhs)
-            outs.append(b.stage.sample(body, grid='integrator', refine=REFINE)[1])
+            if c.op == '<=<=':
+                outs.append(b.stage.sample(b.mx(plain(c.mid)) - b.mx(c.rhs), grid='integrator', refine=REFINE)[1])
+                outs.append(b.stage.sample(b.mx(c.lhs) - b.mx(plain(c.mid)), grid='integrator', refine=REFINE)[1])
+            else:
+                body = b.mx(plain(c.lhs)) - b.mx(plain(c.rhs))
+                outs.append(b.stage.sample(body, grid='integrator', refine=REFINE)[1])
         return outs
     I = Inst(spec, cfg, seed=item.get('seed', 0), extra_outputs=extra)
     z3 = I.z3
@@ -105,10 +123,15 @@ def run(item):
         return {'status': 'inconclusive', 'inconclusive': [{'label': 'hypotheses', 'why': 'NLP rows unsatisfiable: vacuous'}], 'stats': ch.stats}
     ex = I.view('z')[5]
     import time
+    concl = []
     for ci, c in enumerate(infc):
+        if c.op == '<=<=':
+            concl.append((c, 1, 'inf[%d] %r <= %r' % (ci, c.mid, c.rhs)))
+            concl.append((c, 1, 'inf[%d] %r <= %r' % (ci, c.lhs, c.mid)))
+        else:
+            concl.append((c, 1 if c.op == '<=' else -1, 'inf[%d] %r %s %r' % (ci, c.lhs, c.op, c.rhs)))
+    for ci, (c, sense, lab) in enumerate(concl):
         vals = ex[ci]
-        sense = 1 if c.op == '<=' else -1
-        lab = 'inf[%d] %r %s %r' % (ci, c.lhs, c.op, c.rhs)
         t_ = time.time()
         ch.s.push()
         ch.s.add(z3.Or(*[(v > 0) if sense == 1 else (v < 0) for v in vals]))
